@@ -45,3 +45,23 @@ pub fn revisitable_group_by_trace<T: Clone, K: PartialEq + Copy>(
     }
     result
 }
+
+/// Map `pages` pages of heap memory at `start` through the global mmapper (as a space would when
+/// it acquires pages), so that `Address::is_mapped` holds for the range.
+pub fn mmapper_ensure_mapped(start: crate::util::Address, pages: usize) -> bool {
+    use crate::util::os::{HugePageSupport, MmapAnnotation, MmapProtection};
+    crate::MMAPPER
+        .ensure_mapped(
+            start,
+            pages,
+            HugePageSupport::No,
+            MmapProtection::ReadWrite,
+            &MmapAnnotation::Misc { name: "verif" },
+        )
+        .is_ok()
+}
+
+/// Whether the global mmapper considers `addr` mapped.
+pub fn mmapper_is_mapped(addr: crate::util::Address) -> bool {
+    crate::MMAPPER.is_mapped_address(addr)
+}
